@@ -145,6 +145,26 @@ Theorem c19_chan_no_leak : forall tr s,
 Proof. exact chan_no_leak. Qed.
 Print Assumptions c19_chan_no_leak.
 
+(* Close waits for every Send: from the moment c.rsp is closed (a fortiori once Close has returned)
+   every Send that was accepted has its goroutine registered, that goroutine has made its round trip
+   and returned; none is Doing or Holding; the WaitGroup counter is zero.  For all label sequences.
+   (In the model, as in the code, the wg increment belongs to the Send label itself, not to the
+   goroutine it starts -- that is what makes this true.) *)
+Theorem c19_close_waits_for_every_send : forall tr s,
+  run init tr = Some s -> phase s = CRspClosed \/ phase s = CReturned ->
+  wg s = 0 /\ length (gs s) = n_send tr /\
+  forall j, j < n_send tr ->
+    exists r d, nth_error (gs s) j = Some (Done r d) /\ dos j tr = [r].
+Proof. exact close_waits_for_every_send. Qed.
+Print Assumptions c19_close_waits_for_every_send.
+
+(* ... because c.rsp is closed only at a state whose counter is zero and all of whose goroutines are Done *)
+Theorem c19_rsp_closed_only_when_idle : forall tr s s',
+  run init tr = Some s -> step s HRspClose = Some s' ->
+  wg s = 0 /\ forall j g, nth_error (gs s) j = Some g -> exists r d, g = Done r d.
+Proof. exact rsp_closed_only_when_idle. Qed.
+Print Assumptions c19_rsp_closed_only_when_idle.
+
 (* At every reachable state, closed or not: bodies opened = bodies closed + bodies
    held by goroutines blocked on the rendezvous; wg = goroutines not yet returned;
    nothing is taken twice; a 204 is never handed to Recv or to the drain loop. *)
